@@ -124,6 +124,9 @@ class NotImplementedSECoPError(NotImplementedError, SECoPError):
     was requested. This should not be used in productive setups, but is very
     helpful during development."""
     name = 'NotImplemented'
+    # the builtin base class comes first in the MRO: its __init__ would leave
+    # raising_methods, args and kwds of SECoPError uninitialized
+    __init__ = SECoPError.__init__
 
 
 class NoSuchParameterError(SECoPError):
@@ -245,6 +248,7 @@ class HardwareError(SECoPError):
 class TimeoutSECoPError(TimeoutError, SECoPError):
     """Some initiated action took longer than the maximum allowed time (retryable)"""
     name = 'TimeoutError'
+    __init__ = SECoPError.__init__  # see NotImplementedSECoPError
 
 
 FRAPPY_ERROR = re.compile(r'(\w*): (.*)$')
